@@ -29,3 +29,45 @@ REGISTRY = {
     "C14": run_c14,
     "C19": props_generic.run_c19,
 }
+
+
+# ------------------------------------------------------------------ marker properties
+import props_marker as pm
+
+MARKER_TRUST = [
+    "direct property oracle on the implementation (a search for a failing input, not a proof)",
+    "packaging's Marker / SpecifierSet as the reference where the property names it",
+    "per-case alarm of 4 s on the Python side: timed-out operations are counted, not compared",
+]
+
+
+def _n(ctx, quick, thorough):
+    return quick if ctx.tier == "quick" else thorough
+
+
+def marker_runner(oracle, quick, thorough, rule, explanation):
+    def run(ctx: Ctx):
+        ctx.level = "other"
+        ctx.trusted_base = MARKER_TRUST
+        ctx.coverage["explanation"] = explanation
+        oracle(ctx, _n(ctx, quick, thorough))
+        ctx.coverage["rule"] = rule
+    return run
+
+
+GEN_RULE = ("marker texts from a grammar over well-defined atoms (string variables with ==,!=,in,not in; python_version / "
+            "python_full_version / platform_release with comparison, ~=, wildcards, in/not in lists; extra ==/!=; 15-20% literal-on-"
+            "the-left), combined by and/or to depth <= 3 with a bias to repeat a variable; environments separate every literal "
+            "occurring in the operands; distinct = (operation, operand classes, result class, shared variables)")
+PENDING = ("the Coq model of the marker normaliser is not finished: this check currently decides the property only by the direct "
+           "oracle on the implementation; see DESIGN.md section 5 for the theorem it will be replaced by")
+
+REGISTRY.update({
+    "C02": marker_runner(pm.oracle_c02, 500, 8000, GEN_RULE, PENDING),
+    "C03": marker_runner(pm.oracle_c03, 700, 10000, GEN_RULE, PENDING),
+    "C07": marker_runner(pm.oracle_c07, 300, 5000, GEN_RULE, PENDING),
+    "C10": marker_runner(pm.oracle_c10, 250, 4000, "random histories of parse/&/| over key-equal spelling families followed by a probe; warm result vs result after cache_clear()", PENDING),
+    "C11": marker_runner(lambda ctx, n: pm.oracle_c11(ctx), 0, 0, "every operator x operand length x variable atom, every simple specifier as from_specifier input, interpreters X.Y.Z on a grid around the operands", PENDING),
+    "C12": marker_runner(pm.oracle_c12, 250, 4000, GEN_RULE, PENDING),
+    "C15": marker_runner(pm.oracle_c15, 500, 8000, GEN_RULE, PENDING),
+})
